@@ -1133,11 +1133,33 @@ def correspond(ctx):
         ("a str = ''", [["a", "str", None, None, None, ""]]),
         ('t table = """\nw bool\n\ntrue\nfalse\n"""', [["t.w", "bool", None, None, None, [True, False]]]),
     ]
+    # a string that contains the parser's own escape marks literally (fixed e0ecb06: `$@01` came back as `"`), in every
+    # string position: quoted (both quotes), bare, next to real escapes, in an array, in a modification
+    known += [
+        ('t str = "a$@01b"', [["t", "str", None, None, None, "a$@01b"]]),
+        ("t str = 'x$@00y'", [["t", "str", None, None, None, "x$@00y"]]),
+        ('t str = "p$@02q"', [["t", "str", None, None, None, "p$@02q"]]),
+        ('t str = a$@01b', [["t", "str", None, None, None, "a$@01b"]]),
+        ('t str = "it\\\'s $@ \\"q\\" $$@00"', [["t", "str", None, None, None, 'it\'s $@ "q" $$@00']]),
+        ('t str[2] = ["$@01","b"]', [["t", "str", None, None, None, ["$@01", "b"]]]),
+        ('t str = "v"\nt = "w$@02"', [["t", "str", None, None, None, "w$@02"]]),
+    ]
+    marks = ["$@00", "$@01", "$@02", "$@03", "$@", "$", "@01", "$@0"]
+    for _ in range(200 if thorough else 30):
+        body = "".join(rng.choice(marks + ["a", "b ", "x1", "_", "."]) for _ in range(rng.randint(1, 5)))
+        body = body.strip() or "$@01"
+        if rng.random() < 0.3:     # bare string: one token without blanks, '#', quotes
+            bare = body.replace(" ", "")
+            known.append(("g\n  t str = %s" % bare, [["g.t", "str", None, None, None, bare]]))
+        else:
+            q = rng.choice(['"', "'"])
+            known.append(("t str = %s%s%s" % (q, body, q), [["t", "str", None, None, None, body]]))
+        ctx.count("marks.generated")
     for text, exp in known:
         impl = impl_run(text)
         ctx.case(text, True)
         if not res_eq(impl, exp):
-            ctx.violation("c13:corpus:" + exp[0][1], "C13: %s | text=%r" % (first_diff(impl, exp), text),
+            ctx.violation("c13:corpus:" + exp[0][1] + (":mark" if "$" in text else ""), "C13: %s | text=%r" % (first_diff(impl, exp), text),
                           {"stream": "corpus", "text": text, "impl": jsonable(impl), "spec": jsonable(exp)})
     n_tree, n_flat, n_mal = (6000, 3000, 3000) if thorough else (700, 300, 300)
     batch = []
